@@ -619,6 +619,8 @@ def main(tier):
         check_pregen(rep, c)
         check_mirror(rep, c)
     rep.attempt(check_rollback, rep)
+    import rollbackpair, llir, c19
+    rep.attempt(rollbackpair.check, rep, llir.library('default'), c19.field_offsets('struct inflate_state', rollbackpair.IN_FIELDS + rollbackpair.OUT_FIELDS))
     rep.attempt(check_trailer_consume, rep)
     import probepure, llir
     rep.attempt(probepure.check_probe_pure, rep, llir.library('default'))
